@@ -200,6 +200,22 @@ fn check(acc: &mut Acc, idx: usize, node: &Node, tag: &str) {
     let sig_dims: Vec<String> = leaves.iter().map(|l| format!("{:?}", l).split(|c| c == '(' || c == ' ').next().unwrap().to_string()).collect();
     acc.class(format!("{} {:?} dim{:?}", tag, sig_dims, exp.map(|e| e.2)));
     acc.sample(idx, || json!({"geometry": format!("{:?}", g), "expected_centroid": exp.map(|e| [e.0, e.1])}));
+    // the f32 instantiation (lattice values are exact in f32; tolerance 1e-5)
+    {
+        use geo::Centroid;
+        let g32 = map_geom_g(&g, &|c| Coord { x: c.x as f32, y: c.y as f32 });
+        acc.evals += 1;
+        match (guard(|| g32.centroid()), exp) {
+            (Err(p), _) => acc.viol(format!("centroid<f32> panic {}", tag), idx, || json!({"geometry": format!("{:?}", g), "panic": p})),
+            (Ok(None), None) => {}
+            (Ok(Some(p)), Some(e)) => {
+                if !((p.x() as f64 - e.0).abs() <= 1e-5 && (p.y() as f64 - e.1).abs() <= 1e-5) {
+                    acc.viol(format!("centroid<f32> wrong {} expected-dimension={}", tag, e.2), idx, || json!({"geometry": format!("{:?}", g), "expected": [e.0, e.1], "got": format!("{:?}", p)}));
+                }
+            }
+            (Ok(got), e) => acc.viol(format!("centroid<f32> None/Some mismatch {}", tag), idx, || json!({"geometry": format!("{:?}", g), "expected": format!("{:?}", e), "got": format!("{:?}", got)})),
+        }
+    }
     for (oname, off) in [("0", (0.0, 0.0)), ("1.5e8", (1.5e8, -1.5e8))] {
         let gg = map_geom_f(&g, &|c| Coord { x: c.x + off.0, y: c.y + off.1 });
         // 2^-30 and 2^40 only at the origin: power-of-two scaling is exact, so the centroid must scale exactly (no absolute size thresholds)
